@@ -56,6 +56,9 @@ case_strategy = st.fixed_dictionaries({
     "cli": st.sampled_from([False, False, True]),
     # distance (deg) of the image from the reference point of its projection (0 = reference pixel on the image)
     "far": st.sampled_from([0, 0, 0, 5.0, 12.0, 25.0]),
+    # the image stored as integers (BITPIX 16 / 32, no scaling cards): the field is rounded to whole numbers and has no
+    # blank pixels (integer images cannot hold NaN)
+    "intpix": st.sampled_from([None, None, None, None, None, "i2", "i4"]),
 })
 
 
@@ -307,13 +310,17 @@ def check_case(c):
         fc["nsrc"] = min(fc["nsrc"], 10 if fc["layout"] == "random" else 24)
         fc["blend_rate"] = min(fc["blend_rate"], 0.2)
         c = dict(c, field=fc)
+    if c.get("intpix"):
+        c = dict(c, field=dict(c["field"], nan_rects=0), rep={k: v for k, v in (c.get("rep") or {}).items() if k != "bscale"})
     F = fields.build_field(c["field"])
+    if c.get("intpix"):
+        F["img"] = np.round(F["img"])
     what = "%s (noise=%s, %d truth sources, islandflux=%s max_summits=%s stage=%d regroup=%s)" % (
         c["mode"], c["field"]["noise"], len(F["truth"]), c["islandflux"], c["max_summits"], c["stage"], c["regroup"])
     d = workdir("c03_")
     try:
         path = os.path.join(d, "im.fits")
-        skyimg.write_fits(path, F["img"], F["hdr"], rep=c.get("rep"))
+        skyimg.write_fits(path, F["img"], F["hdr"], rep=c.get("rep"), dtype={"i2": np.int16, "i4": np.int32}.get(c.get("intpix"), np.float64))
         sources, docov = run_case(c, path, F)
         comps, isles = check_rows(sources, res, what, F, c, docov)
         if c["table"] and comps and not res.violations:
